@@ -52,7 +52,15 @@ def probe_cases(draw):
                     sends.append([y, k])
             rounds.append(sends)
         plan[x] = rounds
-    return {"target": "probe", "nodes": names, "edges": edges, "plan": plan, "schedule": draw(gen.schedules(150))}
+    # a third of the runs start one or two nodes paused (what an agent does with computations deployed during a
+    # pause) and resume them after a generated number of scheduler steps: what they posted meanwhile - their own
+    # messages and the mixin's synchronisation messages - must reach the neighbours at resume, once
+    paused = {}
+    if draw(st.integers(0, 2)) == 0:
+        for x in draw(st.lists(st.sampled_from(names), min_size=1, max_size=2, unique=True)):
+            paused[x] = draw(st.integers(0, 12))
+    return {"target": "probe", "nodes": names, "edges": edges, "plan": plan, "schedule": draw(gen.schedules(150)),
+            "paused": paused}
 
 
 @st.composite
@@ -147,13 +155,38 @@ def run_probe(case):
     for c in comps.values():
         net.add(c)
     active = [c for x, c in comps.items() if nb[x]]
+    to_resume = dict(case.get("paused") or {})
+    if to_resume:
+        labels.append("paused-start")
+        with under_test():
+            for x in to_resume:
+                comps[x].pause(True)
 
     def after(n, act):
+        for x in [x for x, k in to_resume.items() if x in n.started and n.step >= k]:
+            del to_resume[x]
+            n._inside = x       # what it re-injects goes to its own priority lane, as on its agent's queue
+            try:
+                with under_test():
+                    comps[x].pause(False)
+            finally:
+                n._inside = None
         if all(c.cycle_count >= HORIZON + 2 for c in active):
             n.halt = True
 
     net.after_step = after
     net.run()
+    while to_resume and not net.halt and not net.errors and not net.bound_hit:
+        # everything else is waiting for a paused node: resume it now (a pause ends at some point)
+        x = sorted(to_resume)[0]
+        del to_resume[x]
+        net._inside = x
+        try:
+            with under_test():
+                comps[x].pause(False)
+        finally:
+            net._inside = None
+        net.run()
     labels.append(net.schedule_label())
     if net.errors:
         return Outcome(False, "probe: handler raised %r" % (net.errors[0],), nontrivial, labels, info={"phase": "raise"})
